@@ -4,23 +4,34 @@ import (
 	"fmt"
 	"os"
 	"strings"
+	"time"
 
+	"github.com/antchfx/xmlquery"
 	"github.com/antchfx/xpath"
 	"github.com/jf-tech/omniparser/idr"
 
 	"verifharness/vh"
 )
 
-// Correspondence for the model of idr/query.go's wrappers (Model/Nav.v match_all / match_single /
+// Correspondence and oracle for idr/query.go's wrappers (Model/Nav.v match_all / match_single /
 // match_any over an abstract iterator): for one expression from one node the harness records
-// what idr.QueryIter iterates (node numbers, in order, duplicates included; whether it stopped by
-// a panic of the library) and what idr.MatchAll / MatchSingle / MatchAny returned; check_wcase
-// replays the wrappers over that scripted iterator.
+//   - what idr.QueryIter iterates (node numbers in order, duplicates included) and how the
+//     iteration goes on: it ends, the library panics, or - an expression that is not a node-set
+//     query and whose value is true - it yields the context node for as long as one asks;
+//   - whether the expression evaluates to a node-set (what query.go's yieldsNodeSet probes);
+//   - what idr.MatchAll / MatchSingle / MatchAny returned (each under a watchdog: before fix
+//     3036423 MatchAll never returned on such an expression and ate memory).
+//
+// check_wcase replays the wrappers over that scripted iterator.  The property oracle is evaluated
+// here against the REFERENCE: the same wrapper semantics applied to the iteration of the same
+// engine over xmlquery.
 type wrapLog struct {
 	ids   map[*idr.Node]int
 	terms []string
 	n     int
 }
+
+const iterCap = 3000
 
 func (w *wrapLog) id(n *idr.Node) int {
 	if w.ids == nil {
@@ -42,54 +53,140 @@ func (w *wrapLog) list(ns []*idr.Node) string {
 	return vh.CoqList(items)
 }
 
-// record runs the three entry points and the bare iterator for expr from start.
-func (w *wrapLog) record(start *idr.Node, expr string, sum *vh.Summary) {
-	if os.Getenv("C11_DEBUG") != "" {
-		fmt.Fprintf(os.Stderr, "RECORD %q\n", expr)
+func guardedFor(d time.Duration, f func()) (err string) {
+	done := make(chan string, 1)
+	go func() {
+		defer func() {
+			if p := recover(); p != nil {
+				done <- fmt.Sprintf("panic: %v", p)
+			}
+		}()
+		f()
+		done <- ""
+	}()
+	select {
+	case e := <-done:
+		return e
+	case <-time.After(d):
+		hung++
+		return fmt.Sprintf("hang (no result after %v)", d)
 	}
+}
+
+// isNodeSetExpr: the probe of query.go's yieldsNodeSet, done independently.
+func isNodeSetExpr(expr string) (ns bool) {
+	defer func() {
+		if r := recover(); r != nil {
+			ns = true
+		}
+	}()
+	p, err := xpath.Compile(expr)
+	if err != nil {
+		return true
+	}
+	_, ns = p.Evaluate(idr.VerifNavigator(&idr.Node{Type: idr.DocumentNode})).(*xpath.NodeIterator)
+	return ns
+}
+
+type apiOutcome struct {
+	NodeSet    bool     `json:"expression_is_node_set"`
+	IdrAll     []string `json:"idr_MatchAll"`
+	IdrAllErr  string   `json:"idr_MatchAll_err,omitempty"`
+	IdrSingle  string   `json:"idr_MatchSingle"`
+	IdrAny     bool     `json:"idr_MatchAny"`
+	RefIter    []string `json:"reference_iteration"`
+	RefLoops   bool     `json:"reference_iterator_yields_context_node_for_ever,omitempty"`
+	RefPanics  bool     `json:"reference_iterator_panics,omitempty"`
+	WantAll    []string `json:"expected_MatchAll"`
+	WantSingle string   `json:"expected_MatchSingle"`
+	WantAny    bool     `json:"expected_MatchAny"`
+}
+
+// record runs the three entry points and the bare iterator for expr from node k of d, evaluates
+// the oracle against the reference and appends the Coq case.  It returns what failed ("" = ok).
+func (w *wrapLog) record(rn *runner, d *docCtx, k int, expr string) (bad string, out *apiOutcome) {
+	sum := rn.sum
+	start, xstart := d.inodes[k], d.xnodes[k]
+	out = &apiOutcome{NodeSet: isNodeSetExpr(expr)}
 	ex, cerr := xpath.Compile(expr)
+
+	// the idr iterator, as a script
 	var iter []*idr.Node
-	panics := false
+	tail := "TEnd"
 	if cerr == nil {
-		func() {
+		e := guardedFor(5*time.Second, func() {
 			defer func() {
 				if r := recover(); r != nil {
-					panics = true
+					tail = "TPanic"
 				}
 			}()
 			it := idr.QueryIter(start, ex)
-			for k := 0; it.MoveNext() && k < 100000; k++ {
+			for len(iter) < iterCap && it.MoveNext() {
 				iter = append(iter, it.Current().(interface{ Current() *idr.Node }).Current())
 			}
-		}()
+		})
+		if e != "" {
+			return "idr.QueryIter: " + e, out
+		}
+		if len(iter) >= iterCap {
+			for _, n := range iter {
+				if n != start {
+					sum.Hist("wrap:iteration-longer-than-cap(skipped)")
+					if os.Getenv("C11_DEBUG") != "" {
+						fmt.Fprintf(os.Stderr, "LONG %q from %s doc %s\n", expr, pathLabel(d.paths[k]), d.text)
+					}
+					return "", out
+				}
+			}
+			iter, tail = nil, "TLoopSelf"
+		}
 	}
-	all, aerr := idr.MatchAll(start, expr)
-	one, serr := idr.MatchSingle(start, expr)
+
+	// the three entry points, under a watchdog
+	var all []*idr.Node
+	var aerr, serr error
+	var one *idr.Node
 	anyv := false
+	if e := guardedFor(4*time.Second, func() { all, aerr = idr.MatchAll(start, expr) }); e != "" {
+		return "idr.MatchAll does not return: " + e, out
+	}
+	if e := guardedFor(4*time.Second, func() { one, serr = idr.MatchSingle(start, expr) }); e != "" {
+		return "idr.MatchSingle does not return: " + e, out
+	}
 	if cerr == nil {
-		anyv = idr.MatchAny(start, ex)
+		if e := guardedFor(4*time.Second, func() { anyv = idr.MatchAny(start, ex) }); e != "" {
+			return "idr.MatchAny does not return: " + e, out
+		}
+	}
+	out.IdrAll, out.IdrAny = idrLabels(d, all), anyv
+	if aerr != nil {
+		out.IdrAllErr = "error"
 	}
 	allT := "OOtherErr"
 	if aerr == nil {
 		allT = "(OOk " + w.list(all) + ")"
 	}
 	oneT := "OOtherErr"
+	out.IdrSingle = "other error"
 	switch {
 	case serr == nil && one != nil:
 		oneT = "(OOk " + vh.CoqN(w.id(one)) + ")"
+		out.IdrSingle = d.ilabel[one]
 	case serr == idr.ErrNoMatch:
-		oneT = "ONoMatch"
+		oneT, out.IdrSingle = "ONoMatch", "ErrNoMatch"
 	case serr == idr.ErrMoreThanExpected:
-		oneT = "OMoreThanExpected"
+		oneT, out.IdrSingle = "OMoreThanExpected", "ErrMoreThanExpected"
 	}
-	w.terms = append(w.terms, fmt.Sprintf("mkW %s %s %s %s %s %s %s %s", vh.CoqBool(expr == "."), vh.CoqN(w.id(start)),
-		vh.CoqBool(cerr == nil), w.list(iter), vh.CoqBool(panics), allT, oneT, vh.CoqBool(anyv)))
+	w.terms = append(w.terms, fmt.Sprintf("mkW %s %s %s %s %s %s %s %s %s", vh.CoqBool(expr == "."), vh.CoqN(w.id(start)),
+		vh.CoqBool(cerr == nil), vh.CoqBool(out.NodeSet), w.list(iter), tail, allT, oneT, vh.CoqBool(anyv)))
 	w.n++
 	switch {
 	case cerr != nil:
 		sum.Hist("wrap:does-not-compile")
-	case panics:
+	case tail == "TPanic":
 		sum.Hist("wrap:iterator-panics")
+	case tail == "TLoopSelf":
+		sum.Hist("wrap:iterator-yields-context-node-for-ever(non-node-set,true)")
 	case len(iter) == 0:
 		sum.Hist("wrap:iterates-0")
 	case len(iter) == 1:
@@ -105,8 +202,158 @@ func (w *wrapLog) record(start *idr.Node, expr string, sum *vh.Summary) {
 			seen[n] = true
 		}
 	}
+	if !out.NodeSet {
+		sum.Hist("wrap:non-node-set-expression")
+	}
+	if cerr != nil || expr == "." {
+		return "", out
+	}
+
+	// ---- the oracle: the wrapper semantics over the REFERENCE's iteration ----
+	lctx := d.xlabel[xstart]
+	e := guardedFor(5*time.Second, func() {
+		defer func() {
+			if r := recover(); r != nil {
+				out.RefPanics = true
+			}
+		}()
+		nav, _ := newFixNav(xstart)
+		it := ex.Select(nav)
+		for len(out.RefIter) < iterCap && it.MoveNext() {
+			cur := it.Current().(*fixNav).in
+			lbl := d.xlabel[cur.Current()]
+			if cur.NodeType() == xpath.AttributeNode {
+				lbl += "/@" + qname(cur.Prefix(), cur.LocalName())
+			}
+			out.RefIter = append(out.RefIter, lbl)
+		}
+	})
+	if e != "" {
+		return "", out // the reference does not answer: nothing to compare with
+	}
+	if len(out.RefIter) >= iterCap {
+		for _, l := range out.RefIter {
+			if l != lctx {
+				return "", out
+			}
+		}
+		out.RefIter, out.RefLoops = nil, true
+	}
+	switch {
+	case out.RefLoops:
+		out.WantAll, out.WantSingle, out.WantAny = []string{lctx}, "ErrMoreThanExpected", true
+		if out.NodeSet {
+			return "", out // cannot happen for a node-set query; not judged
+		}
+	case out.RefPanics:
+		out.WantAll, out.WantAny = nil, len(out.RefIter) > 0
+		out.WantSingle = "other error"
+		if len(out.RefIter) >= 2 {
+			out.WantSingle = "ErrMoreThanExpected"
+		}
+		if out.IdrAllErr == "" {
+			return "the reference iteration panics inside the engine, idr.MatchAll reports no error", out
+		}
+	default:
+		out.WantAll, out.WantAny = out.RefIter, len(out.RefIter) > 0
+		switch len(out.RefIter) {
+		case 0:
+			out.WantSingle = "ErrNoMatch"
+		case 1:
+			out.WantSingle = out.RefIter[0]
+		default:
+			out.WantSingle = "ErrMoreThanExpected"
+		}
+		if !out.NodeSet {
+			// ret[:1] when the context node comes twice in a row and the query is no node-set
+			for i := 1; i < len(out.RefIter); i++ {
+				if out.RefIter[i] == lctx && out.RefIter[i-1] == lctx {
+					out.WantAll = out.RefIter[:1]
+					break
+				}
+			}
+		}
+	}
+	if !out.RefPanics {
+		if out.IdrAllErr != "" || len(out.IdrAll) != len(out.WantAll) {
+			return "idr.MatchAll does not return what the query selects on the reference DOM", out
+		}
+		for i := range out.WantAll {
+			if out.IdrAll[i] != out.WantAll[i] {
+				return "idr.MatchAll does not return what the query selects on the reference DOM", out
+			}
+		}
+	}
+	if out.IdrSingle != out.WantSingle {
+		return "idr.MatchSingle disagrees with the number of nodes the query selects on the reference DOM", out
+	}
+	if out.IdrAny != out.WantAny {
+		return "idr.MatchAny disagrees with the reference DOM", out
+	}
+	return "", out
+}
+
+// apiCase: record + report.  A call that does not return keeps its goroutine spinning (and
+// allocating): the run is closed at once.
+func (w *wrapLog) apiCase(rn *runner, d *docCtx, k int, expr string, pre *poolPrelude, verbose bool) {
+	bad, out := w.record(rn, d, k, expr)
+	if verbose {
+		fmt.Printf("string API %q from %s: %+v %s\n", expr, pathLabel(d.paths[k]), *out, bad)
+	}
+	if bad == "" {
+		return
+	}
+	c := &exprCase{Kind: "expr", Doc: d.text, Expr: expr, Start: d.paths[k], API: true, Pool: pre}
+	rn.sum.Fail(bad, c, out)
+	if strings.Contains(bad, "does not return") {
+		fmt.Fprintln(os.Stderr, "c11: "+bad+" - closing the run")
+		rn.finish()
+		os.Exit(0)
+	}
 }
 
 func (w *wrapLog) term() string {
 	return "(WrapCases [\n  " + strings.Join(w.terms, ";\n  ") + "])"
+}
+
+// scalarProbes: boolean / number / string valued expressions (true and false ones) for the
+// string API, from the root element and from another element of the document.
+func scalarProbes(d *docCtx, r *vh.Rng) (starts []int, exprs []string) {
+	var elems []int
+	for k, n := range d.xnodes {
+		if n.Type == xmlquery.ElementNode {
+			elems = append(elems, k)
+		}
+	}
+	if len(elems) == 0 {
+		return
+	}
+	for _, k := range []int{elems[0], elems[r.Pick(len(elems))]} {
+		n := d.xnodes[k]
+		nc := 0
+		for c := n.FirstChild; c != nil; c = c.NextSibling {
+			if c.Type == xmlquery.ElementNode {
+				nc++
+			}
+		}
+		cands := []string{"1 = 1", "1 = 2", fmt.Sprintf("count(*) = %d", nc), fmt.Sprintf("count(*) = %d", nc+1),
+			"'s'", "''", "1 + 1", "count(*)", "string(.)", "not(*)", "boolean(*)", "* and @*", "* or @*", "*/..", "@*/.."}
+		for _, a := range n.Attr {
+			if q, ok := quotable(a.Value); ok {
+				cands = append(cands, "@"+qname(a.Name.Space, a.Name.Local)+"="+q, "@"+qname(a.Name.Space, a.Name.Local)+"!="+q)
+				break
+			}
+		}
+		if c := n.FirstChild; c != nil {
+			if q, ok := quotable(c.InnerText()); ok {
+				cands = append(cands, "node() = "+q, "* = 'zzz'")
+			}
+		}
+		r.Shuffle(len(cands), func(i, j int) { cands[i], cands[j] = cands[j], cands[i] })
+		for _, e := range cands[:6] {
+			starts = append(starts, k)
+			exprs = append(exprs, e)
+		}
+	}
+	return
 }
